@@ -1,9 +1,10 @@
 SPECIFICATION TSpec
 CONSTANTS
   CU = 4
-  Files = {"A", "b", "L1", "L2", "D/A", "D/b"}
-  Dirs = {"D"}
+  Files = {"A", "b", "L1", "L2", "D/A", "D/b", "E/A", "E/b"}
+  Dirs = {"D", "E"}
   InD = {"D/A", "D/b"}
+  InE = {"E/A", "E/b"}
 CONSTRAINT HW
 INVARIANTS TypeOK P_C01_Shape
 POSTCONDITION Accepted
